@@ -44,6 +44,28 @@ class MissingLatticeOptError(Exception):
     '''An exception class to raise when the ``--lattice`` option is missing.'''
 
 
+def check_unsupported_data_cards(mcnp_parser):
+    '''Refuse the cell parameters that are given as data cards (one entry
+    per cell), and the READ card, which the conversion would otherwise
+    silently ignore.'''
+    for card in mcnp_parser.cards(blocks='d', skipcomments=True):
+        mnemonic = card.parts()[1].split()
+        if not mnemonic:
+            continue
+        name = mnemonic[0].lower().lstrip('*').rstrip('=')
+        if name in ('u', 'fill', 'lat', 'trcl'):
+            msg = (f'{name.upper()} data cards are not supported yet; '
+                   f'please use the {name.upper()} keyword on the cell '
+                   'cards instead')
+            raise NotImplementedError(msg)
+        if name == 'read':
+            # the cards of the auxiliary file (materials, transformations,
+            # ...) would be missing from the conversion
+            msg = ('READ cards are not supported yet; please insert the '
+                   'contents of the auxiliary file in the input file')
+            raise NotImplementedError(msg)
+
+
 class ParseMCNPCell:
     '''Class that parses the CELLS block.'''
 
@@ -66,25 +88,9 @@ class ParseMCNPCell:
                                           'are not supported yet')
 
     def check_cell_parameter_cards(self):
-        '''Refuse the cell parameters that are given as data cards (one entry
-        per cell), and the READ card, which the conversion would otherwise
-        silently ignore.'''
-        for card in self.mcnp_parser.cards(blocks='d', skipcomments=True):
-            mnemonic = card.parts()[1].split()
-            if not mnemonic:
-                continue
-            name = mnemonic[0].lower().lstrip('*').rstrip('=')
-            if name in ('u', 'fill', 'lat', 'trcl'):
-                msg = (f'{name.upper()} data cards are not supported yet; '
-                       f'please use the {name.upper()} keyword on the cell '
-                       'cards instead')
-                raise NotImplementedError(msg)
-            if name == 'read':
-                # the cards of the auxiliary file (typically the materials)
-                # would be missing from the conversion
-                msg = ('READ cards are not supported yet; please insert the '
-                       'contents of the auxiliary file in the input file')
-                raise NotImplementedError(msg)
+        '''Refuse the data cards that the conversion would otherwise silently
+        ignore (see :func:`check_unsupported_data_cards`).'''
+        check_unsupported_data_cards(self.mcnp_parser)
 
     def parse_importance_cards(self):
         '''Parse any importance cards and return the maximum importance value
